@@ -173,6 +173,13 @@ DEVIATIONS = [
         {"inputLocation": {"Weight": 900}, "outputLocation": {"Weight": 870.5}, "description": "first <&>", "groupDescription": "group A"},
         {"inputLocation": {"Weight": 100}, "outputLocation": {"Width": 60}, "description": None, "groupDescription": "group A"},
         {"inputLocation": {"Width": 200}, "outputLocation": {"Weight": 100, "Width": 190}, "description": None, "groupDescription": "group B"}])),
+    # groups named alike but not adjacent (A, B, A, none, A): the order of the mappings is what avar2 applies
+    ("axis-mappings-interleaved", _set("axisMappings", [
+        {"inputLocation": {"Weight": 900}, "outputLocation": {"Weight": 870}, "description": None, "groupDescription": "group A"},
+        {"inputLocation": {"Weight": 100}, "outputLocation": {"Width": 60}, "description": None, "groupDescription": "group B"},
+        {"inputLocation": {"Width": 200}, "outputLocation": {"Width": 190}, "description": "third", "groupDescription": "group A"},
+        {"inputLocation": {"Width": 50}, "outputLocation": {"Weight": 120}, "description": None, "groupDescription": None},
+        {"inputLocation": {"Weight": 400, "Width": 50}, "outputLocation": {"Weight": 410}, "description": None, "groupDescription": "group A"}])),
     ("location-labels", _set("locationLabels", [
         {"name": "Some Style", "userLocation": {"Weight": 300}, "elidable": False, "olderSibling": False, "labelNames": {"fr": "Un Style"}},
         {"name": "Other", "userLocation": {"Weight": 500.5}, "elidable": True, "olderSibling": True, "labelNames": {}}])),
